@@ -34,24 +34,34 @@ def _apply(source: Source, variant: Variant) -> Optional[Dict[str, str]]:
     for rel, old, new in variant.edits:
         if not source.exists(rel):
             return None
-        text = overlay.get(rel, source.read(rel))
+        text = overlay.get(rel, source.read(rel, raw=True))
         if text.count(old) != 1:
             return None
         overlay[rel] = text.replace(old, new)
     return overlay
 
 
-def _renamed_overlay(source: Source) -> Dict[str, str]:
-    """Every function-local variable of the whole package renamed (a behaviour-preserving twin)."""
-    import ast
+def _rename_tool() -> Any:
     import importlib.util
 
     spec = importlib.util.spec_from_file_location("rename_twins", os.path.join(os.path.dirname(os.path.dirname(os.path.abspath(__file__))), "tools", "rename_twins.py"))
     module = importlib.util.module_from_spec(spec)
     assert spec and spec.loader
     spec.loader.exec_module(module)
+    return module
+
+
+def _renamed_overlay(source: Source, private: bool = False) -> Dict[str, str]:
+    """Every function-local variable of the whole package renamed (a behaviour-preserving twin);
+    with ``private`` every double-underscore method / field instead."""
+    import ast
+
+    module = _rename_tool()
     overlay: Dict[str, str] = {}
     for rel in source.python_files():
+        if private:
+            overlay[rel] = module.private_renamed(source.read(rel, raw=True))
+            continue
         tree = module.Renamer().visit(ast.parse(source.read(rel)))
         ast.fix_missing_locations(tree)
         overlay[rel] = ast.unparse(tree)
@@ -61,8 +71,8 @@ def _renamed_overlay(source: Source) -> Dict[str, str]:
 def _run_one(args: Tuple[str, Variant, List[str]]) -> Dict[str, Any]:
     prop, variant, base_idents = args
     source = Source()
-    if variant.name == RENAME_TWIN:
-        return _run_rename_twin(prop, source, base_idents)
+    if variant.name in (RENAME_TWIN, PRIVATE_TWIN):
+        return _run_rename_twin(prop, source, base_idents, variant.name)
     overlay = _apply(source, variant)
     if overlay is None:
         return {"name": variant.name, "kind": variant.kind, "status": "inapplicable"}
@@ -89,23 +99,24 @@ def _run_one(args: Tuple[str, Variant, List[str]]) -> Dict[str, Any]:
 
 
 RENAME_TWIN = "twin: every local variable of the package renamed and every file re-printed"
+PRIVATE_TWIN = "twin: every private method and field of the package renamed and every file re-printed"
 
 
-def _run_rename_twin(prop: str, source: Source, base_idents: List[str]) -> Dict[str, Any]:
+def _run_rename_twin(prop: str, source: Source, base_idents: List[str], name: str = RENAME_TWIN) -> Dict[str, Any]:
     module = importlib.import_module(f"sa.rules.{prop.lower()}")
     try:
-        prog = Program(source.with_overlay(_renamed_overlay(source)))
+        prog = Program(source.with_overlay(_renamed_overlay(source, private=name == PRIVATE_TWIN)))
         ctx = Context(prog, "quick", prop)
         module.run(ctx)
         ctx.check_floors()
     except AnalysisError as exc:
-        return {"name": RENAME_TWIN, "kind": "twin", "status": "analysis-error", "detail": str(exc)[:200]}
+        return {"name": name, "kind": "twin", "status": "analysis-error", "detail": str(exc)[:200]}
     # construct keys contain statement text, which the renaming changes: compare per rule
     ran = {rule.rule_id for rule in ctx.rules}  # thorough-only rules do not run in variants
     base_rules = sorted(r for r in (ident.split("|")[0] for ident in base_idents) if r in ran)
     new_rules = sorted(f.rule for f in ctx.findings())
     status = "silent" if base_rules == new_rules else "false-alarm"
-    return {"name": RENAME_TWIN, "kind": "twin", "status": status, "rules": sorted(set(new_rules) - set(base_rules)), "detail": []}
+    return {"name": name, "kind": "twin", "status": status, "rules": sorted(set(new_rules) - set(base_rules)), "detail": []}
 
 
 def variants_for(prop: str) -> List[Variant]:
@@ -126,6 +137,7 @@ def run(prop: str, seed: int = 0, base_idents: Optional[List[str]] = None) -> Di
         module.run(ctx)
         base_idents = [f.ident() for f in ctx.findings()]
     variants.append(Variant(RENAME_TWIN, "twin", []))
+    variants.append(Variant(PRIVATE_TWIN, "twin", []))
     jobs = [(prop, variant, base_idents) for variant in variants]
     results: List[Dict[str, Any]] = []
     if jobs:
